@@ -219,6 +219,26 @@ class Runner:
         self.drv = drv
         self.fail = {}  # sig -> (size, what, replay)
 
+    def guard(self, name, fn, *a, **k):
+        """an unusable output of the implementation (wrong shape / type) that trips the harness later is an
+        oracle failure of the implementation, not a harness crash"""
+        try:
+            return fn(*a, **k)
+        except Exception as e:
+            import traceback
+
+            from common import InfraError
+
+            if isinstance(e, InfraError):
+                raise
+            tb = traceback.extract_tb(e.__traceback__)[-1]
+            case = next((x for x in a if isinstance(x, dict) and "kind" in x), None)
+            if case is None:
+                case = {"kind": "constant", "samp": [F(0), F(0)], "coal": [F(1)], "thetas": [F(1)], "note": name}
+            self.violation(f"{name}:unusable-output",
+                           f"{name}: the implementation's output could not be used ({type(e).__name__}: {str(e)[:120]} at {tb.name}:{tb.lineno})",
+                           case, size=10 ** 6)
+
     def violation(self, sig, what, case, extra=None, size=None):
         size = len(case["samp"]) if size is None else size
         if sig not in self.fail or size < self.fail[sig][0]:
@@ -485,6 +505,278 @@ class Runner:
                                {"path": path})
 
 
+# ----------------------------------------------------------------------------- from_json construction paths
+def json_paths(R: Runner, rng, kind, n):
+    """the `*Model.from_json` constructors: data given as `times`/`events` or `intervals`/`events` (FakeTreeModel
+    path), grid given as a list or as `cutoff` (equally spaced)"""
+    import torchtree.evolution.coalescent as C
+
+    ctor = {"constant": C.ConstantCoalescentModel, "skyride": C.PiecewiseConstantCoalescentModel,
+            "skygrid": C.PiecewiseConstantCoalescentGridModel, "exponential": C.ExponentialCoalescentModel,
+            "linear": C.PiecewiseLinearCoalescentGridModel}[kind]
+    case = make_case(rng, kind, n, flat=False)
+    samp, coal = case["samp"], case["coal"]
+    # events in time order for the `intervals` form (first time must be 0: cumsum starts there)
+    ev = sorted([(t, 1) for t in samp] + [(t, 0) for t in coal], key=lambda p: (p[0], -p[1]))
+    variants = []
+    base = {"id": "coalescent", "type": ctor.__name__,
+            "theta": {"id": "theta", "type": "Parameter", "tensor": [float(x) for x in case["thetas"]], "dtype": "torch.float64"}}
+    if kind == "exponential":
+        base["growth"] = {"id": "growth", "type": "Parameter", "tensor": [float(case["growth"])], "dtype": "torch.float64"}
+    data_times = {"times": [float(t) for t, _ in ev], "events": [e for _, e in ev]}
+    data_intervals = {"intervals": [float(b[0] - a[0]) for a, b in zip(ev, ev[1:])], "events": [e for _, e in ev]}
+    for dname, d in (("times", data_times), ("intervals", data_intervals)):
+        if "grid" in case:
+            variants.append((dname + "+grid-list", dict(base, **d, grid=[float(x) for x in case["grid"]]), case))
+            K = len(case["thetas"])
+            cutoff = float(max(coal)) * rng.choice([0.5, 1.0, 1.5])
+            gridc = [F(cutoff) * i / (K - 1) for i in range(1, K)] if K > 1 else []
+            if K > 1 and not any(gp in coal for gp in gridc):
+                variants.append((dname + "+cutoff", dict(base, **d, cutoff=cutoff), dict(case, grid=gridc)))
+        else:
+            variants.append((dname, dict(base, **d), case))
+    for vname, js, c in variants:
+        R.ck.case(key=("json", kind, n, vname, tuple(samp), tuple(coal), tuple(c["thetas"])), bucket=f"from_json/{kind}/{vname}")
+        try:
+            import copy
+
+            m = ctor.from_json(copy.deepcopy(js), {})
+            v = float(m().reshape(-1)[0])
+        except Exception as e:
+            R.violation(f"{ctor.__name__}.from_json:{vname}:raises", f"{ctor.__name__}.from_json ({vname}) raises {type(e).__name__}: {str(e)[:120]}", c,
+                        {"json": js}, size=n)
+            continue
+        if vname.endswith("cutoff"):
+            # torch.linspace is float32 by default: take the grid the model actually holds
+            c = dict(c, grid=FX(m.grid.tensor))
+            if any(gp in coal for gp in c["grid"]):
+                continue
+        o, scale = oracle_value(c)
+        if not close(v, o, 1e-9, scale):
+            R.violation(f"{ctor.__name__}.from_json:{vname}:value",
+                        f"{ctor.__name__}.from_json ({vname}) evaluates to {v!r}; Kingman density of the described model {o!r}", c,
+                        {"json": js, "impl": v, "oracle": o}, size=n)
+
+
+# ----------------------------------------------------------------------------- live model objects
+LIVE_KINDS = ("constant", "exponential", "skyride", "skygrid", "linear", "soft")
+TREE_KINDS = ("fake", "time", "reparam")
+
+
+def FX(t):
+    """exact Fractions of the float entries of a 1-D tensor"""
+    return [F(float(x)) for x in t.reshape(-1).tolist()]
+
+
+class Live:
+    """one live `*Model` object with handles on every parameter it depends on"""
+
+    def __init__(self, rng, kind, n, tree_kind, init=None):
+        """`init` (from a replay file) fixes every value that is otherwise drawn from `rng`"""
+        import torch
+        import torchtree.evolution.coalescent as C
+        from torchtree import Parameter
+        from torchtree.evolution.tree_model import ReparameterizedTimeTreeModel, TimeTreeModel
+
+        self.kind, self.tree_kind, self.n = kind, tree_kind, n
+        if init is None:
+            g = G.genealogy(rng, n, q=3, coal_tie_samp_p=0.0, tie_p=0.2)
+            init = {"samp": [fr(x) for x in g["samp"]], "coal": [fr(x) for x in g["coal"]], "newick": g["newick"],
+                    "ratios": [rng.uniform(0.1, 0.9) for _ in range(n - 2)], "root_extra": rng.uniform(0.5, 3.0),
+                    "G": rng.randint(1, 5), "theta_seed": [rng.uniform(0.3, 6.0) for _ in range(max(n, 8))],
+                    "growth": rng.choice([-1, 1]) * rng.uniform(0.05, 1.0), "grid": None}
+        self.init, self.trace = init, []
+        g = {"samp": [F(x) for x in init["samp"]], "coal": [F(x) for x in init["coal"]], "newick": init["newick"]}
+        samp, coal = g["samp"], g["coal"]
+        self.handles = {}
+        if tree_kind == "fake":
+            self.tree = C.FakeTreeModel(Parameter("heights", T(samp + coal)))
+        else:
+            taxa = {f"T{i}": float(s) for i, s in enumerate(samp)}
+            dic = {}
+            if tree_kind == "time":
+                js = TimeTreeModel.json_factory("tree", g["newick"], [0.0] * len(coal), taxa, keep_branch_lengths=True,
+                                                internal_heights_id="internal_heights")
+                js["internal_heights"]["dtype"] = "torch.float64"
+                self.tree = TimeTreeModel.from_json(js, dic)
+                self.handles["internal_heights"] = dic["internal_heights"]
+            else:
+                ratios = {"id": "ratios", "type": "Parameter", "dtype": "torch.float64", "tensor": list(init["ratios"])}
+                root = {"id": "root_height", "type": "Parameter", "dtype": "torch.float64",
+                        "tensor": [float(max(samp)) + init["root_extra"]]}
+                js = ReparameterizedTimeTreeModel.json_factory("tree", g["newick"], taxa, ratios=ratios, root_height=root)
+                self.tree = ReparameterizedTimeTreeModel.from_json(js, dic)
+                if len(coal) > 1:
+                    self.handles["ratios"] = dic["ratios"]
+                self.handles["root_height"] = dic["root_height"]
+        nth = {"constant": 1, "exponential": 1, "skyride": n - 1}.get(kind)
+        self.G = init["G"]
+        if nth is None:
+            nth = self.G + 1
+        while len(init["theta_seed"]) < nth:
+            init["theta_seed"].append(rng.uniform(0.3, 6.0))
+        self.theta = Parameter("theta", T(init["theta_seed"][:nth]))
+        self.handles["theta"] = self.theta
+        self.growth = self.grid = None
+        if kind == "exponential":
+            self.growth = Parameter("growth", T([init["growth"]]))
+            self.handles["growth"] = self.growth
+        if kind in ("skygrid", "linear", "soft"):
+            if init["grid"] is None:
+                init["grid"] = self.new_grid(rng)
+            self.grid = Parameter("grid", T(init["grid"]))
+            self.handles["grid"] = self.grid
+        self.model = self.build(self.tree, self.theta, self.growth, self.grid)
+        self.cls = type(self.model).__name__ + ("(temperature)" if kind == "soft" else "")
+
+    def build(self, tree, theta, growth, grid):
+        import torchtree.evolution.coalescent as C
+
+        k = self.kind
+        if k == "constant":
+            return C.ConstantCoalescentModel("coalescent", theta, tree)
+        if k == "skyride":
+            return C.PiecewiseConstantCoalescentModel("coalescent", theta, tree)
+        if k == "exponential":
+            return C.ExponentialCoalescentModel("coalescent", theta, growth, tree)
+        if k == "skygrid":
+            return C.PiecewiseConstantCoalescentGridModel("coalescent", theta, grid, tree)
+        if k == "soft":
+            return C.PiecewiseConstantCoalescentGridModel("coalescent", theta, grid, tree, temperature=0.05)
+        return C.PiecewiseLinearCoalescentGridModel("coalescent", theta, grid, tree)
+
+    def heights(self):
+        return self.tree.node_heights.detach()
+
+    def new_grid(self, rng):
+        """G increasing grid points with UNEQUAL pieces, reaching somewhere between half and twice the root"""
+        root = float(self.tree.node_heights.max())
+        incs = [rng.uniform(0.05, 1.0) for _ in range(self.G)]
+        tot = sum(incs)
+        span = root * rng.uniform(0.5, 2.0)
+        acc, out = 0.0, []
+        for v in incs:
+            acc += v
+            out.append(acc / tot * span)
+        return out
+
+    def fresh_value(self):
+        """the same values in a newly built model (FakeTreeModel holding the CURRENT node heights)"""
+        import torch
+        import torchtree.evolution.coalescent as C
+        from torchtree import Parameter
+
+        tree = C.FakeTreeModel(Parameter("h", self.heights().clone()))
+        theta = Parameter("theta", self.theta.tensor.detach().clone())
+        growth = Parameter("growth", self.growth.tensor.detach().clone()) if self.growth is not None else None
+        grid = Parameter("grid", self.grid.tensor.detach().clone()) if self.grid is not None else None
+        return float(self.build(tree, theta, growth, grid)().reshape(-1)[0])
+
+    def case(self):
+        h = FX(self.heights())
+        c = {"kind": {"soft": "softgrid"}.get(self.kind, self.kind), "samp": h[: self.n], "coal": h[self.n:],
+             "thetas": FX(self.theta.tensor.detach())}
+        if self.growth is not None:
+            c["growth"] = FX(self.growth.tensor.detach())[0]
+        if self.grid is not None:
+            c["grid"] = FX(self.grid.tensor.detach())
+        return c
+
+    def ops(self):
+        o = [k for k in self.handles] + ["cpu", "to"]
+        return o
+
+    def apply(self, rng, op, values=None):
+        """one update through the public parameter interface; `values` (from a replay) overrides the draw"""
+        import torch
+
+        if op in ("cpu", "to"):
+            self.model.cpu() if op == "cpu" else self.model.to(torch.float64)
+            self.trace.append([op, None])
+            return
+        p = self.handles[op]
+        if values is None:
+            k = p.tensor.shape[-1]
+            if op == "theta":
+                values = [rng.uniform(0.3, 6.0) for _ in range(k)]
+            elif op == "growth":
+                values = [rng.choice([-1, 1]) * rng.uniform(0.05, 1.0)]
+            elif op == "grid":
+                values = self.new_grid(rng)
+            elif op == "ratios":
+                values = [rng.uniform(0.1, 0.9) for _ in range(k)]
+            else:
+                # internal heights / root height: scaling by c >= 1 and shifting up keeps every parent above
+                # its children and its tips
+                values = (p.tensor.detach() * rng.uniform(1.0, 2.0) + rng.uniform(0.0, 1.0)).reshape(-1).tolist()
+        p.tensor = T(values)
+        self.trace.append([op, [float(v).hex() for v in values]])
+
+    def record(self):
+        return {"kind": self.kind, "tree": self.tree_kind, "n": self.n, "init": self.init, "trace": self.trace}
+
+
+def live_history(R: Runner, rng, kind, n, tree_kind, steps, record=None):
+    """evaluate, update ONE input through the public parameter interface, re-evaluate: after every step the
+    live model must agree with a freshly built model holding the same values and with the Kingman density /
+    the Lean model at the CURRENT values"""
+    ck = R.ck
+    try:
+        L = Live(rng, kind, n, tree_kind, init=record["init"] if record else None)
+    except Exception as e:
+        R.violation(f"live:{kind}:{tree_kind}:construction", f"cannot build the {kind} model on a {tree_kind} tree: {type(e).__name__}: {str(e)[:120]}",
+                    {"kind": "constant", "samp": [F(0), F(0)], "coal": [F(1)], "thetas": [F(1)]}, size=n)
+        return
+    history = []
+    if record:
+        ops = ["(initial)"] + [o for o, _ in record["trace"]]
+        vals = [None] + [[float.fromhex(x) for x in v] if v else None for _, v in record["trace"]]
+    else:
+        ops = ["(initial)"] + [rng.choice(L.ops()) for _ in range(steps)]
+        # every parameter the model depends on is updated at least once per history when there is room
+        hs = [k for k in L.handles]
+        rng.shuffle(hs)
+        for i, h in enumerate(hs[: max(0, steps)]):
+            ops[1 + i] = h
+        vals = [None] * len(ops)
+    for step, op in enumerate(ops):
+        try:
+            if step:
+                L.apply(rng, op, vals[step])
+            history.append(op)
+            v = float(L.model().reshape(-1)[0])
+            vf = L.fresh_value()
+            case = L.case()
+        except Exception as e:
+            R.violation(f"{L.cls}.__call__:live-raises",
+                        f"{L.cls} on a {tree_kind} tree raises after update history {history}: {type(e).__name__}: {str(e)[:120]}",
+                        {"kind": "constant", "samp": [F(0), F(0)], "coal": [F(1)], "thetas": [F(1)]}, {"history": history, "tree": tree_kind, "live_record": L.record()}, size=n)
+            return
+        ck.case(key=("live", kind, tree_kind, n, step, tuple(history), tuple(case["coal"])), bucket=f"live/{kind}/{tree_kind}")
+        ck.bucket(f"live-op/{op}")
+        extra = {"history": list(history), "tree": tree_kind, "live": v, "fresh": vf, "live_record": L.record()}
+        if not close(v, vf, 1e-11, abs(vf)):
+            R.violation(f"{L.cls}.__call__:stale",
+                        f"{L.cls} on a {tree_kind} tree returns {v!r} after update history {history}; a freshly built model with the same values gives {vf!r}",
+                        case, extra, size=n)
+            continue
+        if kind == "soft":
+            continue
+        coal, grid = case["coal"], case.get("grid", [])
+        if len(set(coal)) < len(coal) or any(gp in coal for gp in grid) or not all(a < b for a, b in zip(grid, grid[1:])):
+            continue
+        o, scale = oracle_value(case)
+        if not close(v, o, 1e-9, scale):
+            R.violation(f"{L.cls}.__call__:live-value",
+                        f"{L.cls} on a {tree_kind} tree returns {v!r} after update history {history}; Kingman density at the current values {o!r}",
+                        case, dict(extra, oracle=o), size=n)
+        req = model_request(case, case["samp"], case["coal"])
+        if req and R.drv:
+            m = R.drv.ask(req)
+            if m == "bad-op" or not close(v, h2f(m), 1e-10, scale):
+                ck.mismatch("live model differs from the Lean model at the current values", {"case": enc_case(case), "history": history, "impl": v, "model": m})
+
+
 # ----------------------------------------------------------------------------- run
 def plan(ck: Check):
     """list of size lists, one per repetition"""
@@ -504,9 +796,9 @@ def shrink_search(R: Runner, rng):
             n = rng.randint(2, 4)
             case = make_case(rng, kind, n)
             R.ck.case(key=("shrink", kind, n, tuple(case["samp"]), tuple(case["coal"]), tuple(case["thetas"])), bucket="shrink-search")
-            R.oracle(case)
-            R.all_equal(rng, case)
-            R.scaling(rng, case)
+            R.guard('oracle', R.oracle, case)
+            R.guard('all_equal', R.all_equal, rng, case)
+            R.guard('scaling', R.scaling, rng, case)
 
 
 def run_case(R: Runner, rng, kind, n, deep):
@@ -527,17 +819,17 @@ def run_case(R: Runner, rng, kind, n, deep):
             ck.bucket("grid/before-first-coalescence")
         if any(g in case["samp"] for g in case["grid"]):
             ck.bucket("grid/on-sampling-time")
-    R.oracle(case)
-    R.oracle(case, order)
-    R.perm_invariance(case, order)
+    R.guard('oracle', R.oracle, case)
+    R.guard('oracle', R.oracle, case, order)
+    R.guard('perm_invariance', R.perm_invariance, case, order)
     if kind in MODELLED:
-        R.correspondence(case, order)
-        R.correspondence(case, [list(range(n)), list(range(n - 1))])
-        R.discrete(case, order)
-    R.all_equal(rng, case)
-    R.scaling(rng, case)
+        R.guard('correspondence', R.correspondence, case, order)
+        R.guard('correspondence', R.correspondence, case, [list(range(n)), list(range(n - 1))])
+        R.guard('discrete', R.discrete, case, order)
+    R.guard('all_equal', R.all_equal, rng, case)
+    R.guard('scaling', R.scaling, rng, case)
     if deep:
-        R.model_paths(case)
+        R.guard('model_paths', R.model_paths, case)
 
 
 def run(ck: Check):
@@ -574,10 +866,10 @@ def run(ck: Check):
         for f in sorted((VERIF / "corpus" / "C08").glob("*.json")):
             case = dec_case(json.loads(f.read_text())["case"])
             ck.case(key=("corpus", f.name), bucket="corpus")
-            R.oracle(case)
+            R.guard('oracle', R.oracle, case)
             if case["kind"] in MODELLED:
                 n = len(case["samp"])
-                R.correspondence(case, [list(range(n)), list(range(n - 1))])
+                R.guard('correspondence', R.correspondence, case, [list(range(n)), list(range(n - 1))])
         for rep, sizes in enumerate(plan(ck)):
             for n in sizes:
                 for kind in ALL_KINDS:
@@ -586,8 +878,18 @@ def run(ck: Check):
         for n in ([2, 3, 5, 8, 13, 30] if not ck.thorough() else [2, 3, 4, 5, 8, 13, 21, 30, 50]):
             for kind in ("constant", "skyride", "skygrid", "exponential", "linear"):
                 for _ in range(2 if not ck.thorough() else 5):
-                    R.batched(rng, kind, n)
+                    R.guard('batched', R.batched, rng, kind, n)
         probe_ties(R, rng)
+        for n in ([2, 3, 5, 8] if not ck.thorough() else [2, 3, 4, 5, 8, 13, 21]):
+            for kind in ("constant", "exponential", "skyride", "skygrid", "linear"):
+                R.guard('json_paths', json_paths, R, rng, kind, n)
+        # live model objects through update histories
+        live_sizes = [2, 3, 4, 6, 9] if not ck.thorough() else [2, 3, 4, 5, 6, 8, 12, 20]
+        for n in live_sizes:
+            for kind in LIVE_KINDS:
+                for tree_kind in TREE_KINDS:
+                    for _ in range(1 if not ck.thorough() else 3):
+                        R.guard('live_history', live_history, R, rng, kind, n, tree_kind, 5 if not ck.thorough() else 8)
         # a broken proof or correspondence with nothing found so far: widen the search before giving up
         if (not ok or ck.mismatches) and not R.fail:
             for _ in range(4):
@@ -642,6 +944,20 @@ def replay(path: str) -> int:
     if "case" not in obj:
         print("replay names broken obligations only:", obj.get("broken_obligations"))
         return 1
+    if "live_record" in obj:
+        from types import SimpleNamespace
+        import random
+
+        rec = obj["live_record"]
+        ck = SimpleNamespace(case=lambda *a, **k: None, bucket=lambda *a, **k: None, mismatch=lambda *a, **k: None, notes=[])
+        R = Runner(ck, None)
+        print("live model history:", rec["kind"], "on a", rec["tree"], "tree, n =", rec["n"], "ops:", [o for o, _ in rec["trace"]])
+        live_history(R, random.Random(0), rec["kind"], rec["n"], rec["tree"], 0, record=rec)
+        for sig, (_s, w, _r) in R.fail.items():
+            print("VIOLATES", sig, "-", w)
+        if not R.fail:
+            print("ok")
+        return 1 if R.fail else 0
     case = dec_case(obj["case"])
     order = obj.get("order")
     samp, coal = case["samp"], case["coal"]
